@@ -8,6 +8,7 @@ import Proofs.C01Ahead
 import Proofs.C01ReadAt
 import Proofs.C01Buffer
 import Proofs.C01IOReader
+import Proofs.C01History
 /-!
   C01 — bit-exact reads through any composition of bit and file readers: property theorems about the
   model (FqModel/Bitio.lean: Read64/Write64/copyBufBits/Buffer; FqModel/C01Readers.lean: the readers;
@@ -133,6 +134,52 @@ example :
       | .ok (_, res) => (res.n, res.bits, res.err) | _ => (0, [], none)) = (0, [], some .eof) := by
   decide
 
+/-! ### histories -/
+
+/-- C01 (stretch `history_refines`).  ANY sequence of ReadBitsAt (offset ≥ 0) / ReadBits / SeekBits(start |
+    current | end) / clone operations on a well-formed SectionReader or MultiReader (over any well-formed
+    nesting of byte buffers, sections, multi and zero readers) behaves as a cursor over the denoted bit string:
+    every read returns exactly the bits at the offset / at the cursor (`SoundAt`), the cursor advances by the
+    bits returned, a seek lands exactly on start/current/end + offset and is rejected only for a target outside
+    [0, len] (never accepted for a negative one), a clone starts at 0 — whatever happened before. -/
+theorem history_refines (d : Nat) (r : Rd) (h : WFd d r) (ht : topSM r = true) (ops : List HOp) :
+    HistOK (den r) (posOf r) (runH d r ops) :=
+  history_refines' d (den r) ops r ⟨h, rfl, ht⟩
+
+/-- C01 (stretch `no_oob`): in such a history no modelled Go slice index / slice bound is out of range (no
+    `fault` outcome), no loop runs for ever (`hang`): every operation returns -/
+theorem no_oob (d : Nat) (r : Rd) (h : WFd d r) (ht : topSM r = true) (ops : List HOp) :
+    ∀ x ∈ runH d r ops, ∃ res, x.2 = ok res := by
+  have hh := history_refines d r h ht ops
+  generalize runH d r ops = l at hh
+  generalize posOf r = pos at hh
+  induction l generalizing pos with
+  | nil => intro x hx; simp at hx
+  | cons y ys ih =>
+    intro x hx
+    obtain ⟨op, o⟩ := y
+    cases o with
+    | ok res =>
+      simp only [HistOK] at hh
+      obtain ⟨pos', _, hrest⟩ := hh
+      rcases List.mem_cons.mp hx with rfl | hx
+      · exact ⟨res, rfl⟩
+      · exact ih pos' hrest x hx
+    | fault w => simp [HistOK] at hh
+    | hang => simp [HistOK] at hh
+    | unsupported w => simp [HistOK] at hh
+
+/-- non-vacuity: a history on the section of `exMulti` with short reads at the internal boundaries, seeks from
+    all three origins (one rejected), and a clone; its observations -/
+example :
+    (runH 8 (newSect exMulti 10 12) [.read 11, .read 11, .seek (-4) .end_, .read 11, .seek (-1) .start,
+        .seek 2 .current, .read 1, .clone, .readAt 2 3]).map
+      (fun x => match x.2 with | .ok res => (res.n, res.bits, res.err) | _ => (-1, [], none))
+    = [(3, [false, false, true], none), (3, [false, false, false], none), (8, [], none),
+       (4, [false, true, false, false], none), (0, [], some .offset), (14, [], none), (0, [], some .eof),
+       (0, [], none), (2, [false, false], none)] := by
+  decide
+
 /-! ### byte-oriented view: IOReader / IOReadSeeker -/
 
 /-- C01 core.  bitio.NewIOReader(r) / NewIOReadSeeker(r) on a fresh well-formed bit reader r (byte buffer,
@@ -166,6 +213,27 @@ example :
     readAll 4 (.ioBytes (newBitReader [0xab, 0xcd] (some 13)) false none {} 0) [1, 1, 1] = ([0xab, 0xc8], some .eof) := by
   refine ⟨⟨?_, rfl, rfl, rfl⟩, by decide⟩
   exact (newBitReader_wf [0xab, 0xcd] (some 13) (by intro nb h; injection h with h; subst h; decide) 0).1
+
+/-! ### bit writer: IOBitWriter -/
+
+/-- bitio.NewIOBitWriter(w): after any sequence of WriteBits(p_i, n_i) (n_i ≤ 8·len(p_i); the drain loop's
+    32 KiB scratch buffer is not modelled) and Flush, the bytes written to w are exactly the concatenated
+    bits packed into bytes, the trailing partial byte padded with zero bits — for every chunking. -/
+theorem ioBitWriter_flush (chunks : List (Nat × List UInt8)) (h : ∀ c ∈ chunks, c.1 ≤ 8 * c.2.length) :
+    ∃ w, (chunks.foldlM (fun w c => w.writeBits c.2 c.1) ({} : BitWriter) >>= BitWriter.flush) = ok w ∧
+      w.out = bitsToBytesPadR (chunkBits chunks) := by
+  have h0 : WInv ({} : BitWriter) [] := ⟨⟨by simp, by simp⟩, by simp [Buffer.content, slice_zero_len, bytesToBits_nil], by simp [Buffer.content, slice_zero_len]⟩
+  obtain ⟨w1, e1, h1⟩ := bitWriter_chunks chunks {} [] h0 h
+  obtain ⟨w2, e2, h2⟩ := bitWriter_flush_spec w1 _ h1
+  refine ⟨w2, ?_, ?_⟩
+  · rw [e1]; exact e2
+  · rw [h2, List.nil_append, packR_eq_bitsToBytesPadR]
+
+/-- non-vacuity: 3 bits, 13 bits, 1 bit → 17 bits → three bytes, the last one padded -/
+example :
+    (([(3, [0xe0]), (13, [0xab, 0xc8]), (1, [0x80])] : List (Nat × List UInt8)).foldlM
+        (fun w c => w.writeBits c.2 c.1) ({} : BitWriter) >>= BitWriter.flush).bind (fun w => ok w.out)
+      = ok [0xf5, 0x79, 0x80] := by decide
 
 /-! ### aheadreadseeker -/
 
